@@ -6,7 +6,7 @@ claim("C20",
       "uses the current cursor/remaining pair; n>0 advances both by n; EINTR retries unchanged; any other "
       "n<=0 reaches a NORETURN block; normal return only with remaining==0; whatever the loop returns contains no write(2) result; plus pointer/length pairing at "
       "every caller. These are necessary and, together with C09's emit sequences, structurally sufficient "
-      "conditions for fragmentation independence; byte identity itself is an argument, not a checked fact.",
+      "conditions for fragmentation independence; byte identity itself is an argument, not a checked fact. With several call sites of write(2) the retrying (descriptor, buffer, size) loop is recognised by its parameters and every other site is reported.",
       "Trusts clang's CFG/NORETURN knowledge (assert is live, rule G1 in C12), the kernel's write(2) contract, "
       "and that the loop is bounded-unrolled once (bound 1) - the loop body is re-entered with symbolic state.")
 
@@ -18,7 +18,7 @@ claim("C16",
       "refuse only when the first ceil(W/7) bytes all continue; the encoder's bytes substituted into the decoder give back every input bit and the count; "
       "mtbl_varint_length_packed returns the index+1 of the first terminating byte within the buffer and never looks at or beyond its end (each length 0..12, "
       "0..24 thorough); the fixed codecs route input bit 8k+j to byte k bit j and back, return the width, and touch the byte buffer only byte-wise (any alignment). "
-      "No input value is chosen and no solver is involved; a construct the domain cannot express is reported as analysis-broken (exit 2), never as a verdict.",
+      "No input value is chosen and no solver is involved; a construct the domain cannot express is reported as analysis-broken (exit 2), never as a verdict. Also decides (R7) that no codec that reads or writes memory through a pointer parameter is declared __attribute__((const)) (or pure if it writes).",
       "One target is analysed: the configured one (byte order read from the preprocessor). Trusts the models of memcpy/memmove with a constant size and of "
       "glibc's __uintN_identity/__bswap_N, and clang's constant folding. Not decided: big-endian hosts, what a refused decode leaves in *value, buffer lengths "
       "beyond the enumerated ones for length_packed.")
@@ -28,7 +28,7 @@ claim("C08",
       "Decides completely: the refusal path performs no caller-visible store (mod/ref) and the create flags contain "
       "O_CREAT|O_EXCL with the failed-open edge returning NULL untouched. Decides as decision tables over {LT,EQ,GT}: "
       "an add proceeds iff no entry yet or sign(key,last accepted key)=GT, and on every success path the remembered key "
-      "ends as exactly the key added. What remains undecided is only the byte semantics of the comparison function (C02.R3).",
+      "ends as exactly the key added. What remains undecided is only the byte semantics of the comparison function (C02.R3). Re-runs C02.R3 (C08.D.*): the gate is exactly as good as the byte comparison it calls.",
       "Trusts clang's constant evaluation of the flag macros for this platform, the mod/ref summaries (field-insensitive "
       "aliasing by access path), and that ubuf_reset/ubuf_clip(0)/ubuf_append have the obvious content semantics.")
 
@@ -38,7 +38,7 @@ claim("C10",
       "from metadata_read (offsets, magic->version map), the ten accessors and mtbl_info's labels all equal the format table. "
       "Decides per path that each counter is bumped exactly once per accepted entry / written block with the right operand, never on a "
       "refusal, that index offset/size are recorded after the join and before the trailer, and that no other function stores to them. "
-      "Arithmetic truth of totals on real files is not decided.",
+      "Arithmetic truth of totals on real files is not decided. Also decides (R3) width agreement: the nine trailer fields and the writer's offset cursor are declared 64 bits wide and no value derived from them, through locals, parameters and function results across library and tools, is converted to fewer bits.",
       "Trusts the T-meta table (spec/t_meta.json, written from the format documentation), the constant folding of offsets in the "
       "abstract evaluator, and C14 for the absence of races on the handler-updated counters.")
 
@@ -47,7 +47,7 @@ claim("C05",
       "Decides: the forward-seek shortcut is reachable only with sign(target,last returned key)=GT (so seek(K) after next()->K re-seeks every "
       "source), a head is re-sought iff the target is beyond it, seek clears finished/pending first and returns success on every path, and "
       "a forward seek that repositions or drops a head records the target as the new reference key; each merger lookup is built from the matching per-source lookup over all sources with its own key parameters, registering and "
-      "offering every non-NULL per-source iterator exactly once and freeing on an empty result. Equivalence with a single merged table over "
+      "offering every non-NULL per-source iterator exactly once and freeing on an empty result. The heap the seek rebuilds and next maintains is decided separately in the order domain: for every heap size up to 5 (6 thorough) and every ordering of the heads, heapify/push/pop/replace keep the elements and the parent<=child invariant and pop/replace/peek return a minimum. Equivalence with a single merged table over "
       "all histories is not decided.",
       "Trusts the T-cmp rows 13/14 (invariant read off merger_iter_next: after next returns K all heads are beyond K), loop bound 1 for the "
       "per-source loops, and the access-path aliasing of the evaluator.")
@@ -59,7 +59,7 @@ claim("C04",
       "no branch depends on the length of the pending key (the empty key is legal); the comparator orders exhausted entries last, returns the "
       "key comparison unchanged and consults dupsort only for equal keys with (a.val,b.val); the three heap comparison sites keep a min-heap; "
       "the two writer-feeding loops add every yielded entry once and stop at the first refused add. Heap algorithm correctness and fold "
-      "multiplicity over all source families are not decided.",
+      "multiplicity over all source families are not decided. Also decides (R9) that merge, dupsort and the heap comparison are each called, and forwarded, with the closure registered with them (pairs derived from the registering functions), and (R10) the heap discipline in the order domain: for every heap size up to 5 (6 thorough) and every ordering, heapify/push/pop/replace keep the elements and the parent<=child invariant and pop/replace/peek return a minimum; re-runs C02.R3 (C04.D.*).",
       "Trusts loop bound 1 (2 in thorough) for the two nested loops, that user callbacks only write through their arguments, and the "
       "role recognition of heap operands by index expression ((pos-1)>>1, 2*pos+1, +1).")
 
@@ -98,7 +98,7 @@ claim("C19",
       "fixed/varint decodes) is preceded by a comparison of an expression containing that quantity with a file-size-derived expression, continuing on "
       "the in-bounds side (a 64-bit file-derived value compared only inside a sum needs an accompanying wrap check; a bound formed by subtracting constants from the file size needs the size established first); the trailer read is preceded by size >= 512; the varint decoder touches at most 10/5 bytes (derived from its loop); "
       "block_init marks every inconsistent restart layout empty and block_iter_init stops on blocks shorter than 8 bytes. Presence and dominance of the "
-      "guards are decided, not the algebra of each inequality (overflow corner cases of the arithmetic are not decided).",
+      "guards are decided, not the algebra of each inequality (overflow corner cases of the arithmetic are not decided). Also decides (R3) that the file length, index offset/length and cached block offset are 64 bits wide and never narrowed on the way to a comparison or pointer computation; re-runs C17.R2 (C19.D.*): the checksum routine consumes exactly the extent it is handed.",
       "Trusts T-extent (which callee reads how many bytes), mmap/fstat contracts, and data-block lengths at get_block being outside this property's statement.")
 
 claim("C18",
@@ -108,7 +108,7 @@ claim("C18",
       "at every free of a record each owning field (one that anywhere receives an acquired value) was released or moved earlier on that path or never assigned; "
       "munmap uses the mapped length; the three listed indirections (queue released by the joined result thread, reference-counted shared fileset, writer's "
       "closed flag) are verified structurally. Leak freedom over all API histories (aliasing through containers, element-wise release loops) and the temp-file "
-      "namespace are not decided; teardown order versus the handler thread is decided in C13.R3.",
+      "namespace are not decided; teardown order versus the handler thread is decided in C13.R3. Also decides (R5) that a parameter through which callers demonstrably hand over an acquired object is stored, released or handed on on every normal path of the callee (unless established NULL).",
       "Trusts T-own (which calls acquire/release/consume/borrow), inference of consuming parameters from 'parameter stored into an object', loop bound 1.")
 
 claim("C13",
@@ -119,7 +119,7 @@ claim("C13",
       "joined flag; the writer dispatches ordered; worker creation is counted under the pool mutex only when no idle thread exists and the maximum is not reached; "
       "each delivered result is read-and-cleared once and passed to the callback once; workers and the result thread leave only on their termination conditions; "
       "the result queue's tail pointer is advanced on append and re-anchored when the queue empties. Deadlock freedom under all schedules and byte identity of "
-      "outputs are model-checking questions and are not decided.",
+      "outputs are model-checking questions and are not decided. Also decides (R9) that no code reachable from a pool work function or result callback hands a non-NULL pool to a writer or sorter it creates (a job waiting for a slot of the pool it occupies).",
       "Trusts T-cv/T-lock (which stores are non-enabling and why), pthread semantics, lock objects told apart by base expression inside one function, loop bound 1.")
 
 claim("C14",
@@ -138,7 +138,7 @@ claim("C07",
       "reloads before using the merger; the reload decision equals T-cmp 24 (pending or strictly more than the interval, never under open iterators, NEVER honoured only when "
       "nothing is pending) and the pending flag is cleared only after a reload; every return of mtbl_fileset_reload leaves the handle rebuilt or shown equal to the shared generation; a handle stores its generation only when its merger was rebuilt or shown equal to the shared "
       "generation with nothing loaded/unloaded since; a reader is added to the view iff non-NULL and accepted by every configured filter. Setfile parsing, keep/unload "
-      "bookkeeping over all histories, the clock, and snapshot contents are not decided.",
+      "bookkeeping over all histories, the clock, and snapshot contents are not decided. Also decides (R8) that the generation stamp handles compare for equality is read from a clock that is not one of the platform's coarse clocks, and (R9) closure pairing for the fileset's filter/merge/dupsort callbacks.",
       "Trusts that equal timestamps mean the same generation (as the code does), T-cmp rows 24/25, loop bound 1 for the file loop.")
 
 claim("C17",
@@ -157,7 +157,7 @@ claim("C09",
       "agrees with it; a framed block is varint64 length, 4-byte little-endian CRC32C, stored bytes, and the returned size is their sum; the checksum is taken over (data,len_data) of the "
       "same block after their last definition and nothing between compression and the file changes them; restart cadence and reset table; a block is cut iff estimate+15+len_key+len_val "
       ">= block_size; the index entry carries the offset the block started at and pending_offset starts at the descriptor's offset and grows by the bytes written; trailer layout as in C10; every increment applied to separator bytes is guarded against wrap-around and a value computed from a multi-byte read is written back whole (the index key cannot drop below the block's last key that way). "
-      "The bytes of real files (which need an independent decoder run on outputs) and the separator arithmetic are not decided.",
+      "The bytes of real files (which need an independent decoder run on outputs) and the separator arithmetic are not decided. Also decides that every block record reaching the block-writing function has had its crc field stored on every path, inline or through the pool's work function (definite assignment); re-runs C16 and C17 (C09.D.*).",
       "Trusts T-format (written from the LevelDB block format and mtbl's documentation), the varint/fixed codecs (decided separately by C16), loop bound 1.")
 
 claim("C11",
@@ -166,7 +166,7 @@ claim("C11",
       "+length-of-length+4 with the decoded length; each magic maps to its version and others are refused; the reader interprets restart offsets as 64-bit under the writer's threshold with "
       "matching element widths and reads the count from the last four bytes; the single-byte fast path requires all three values < 128; an entry is rebuilt as clip(previous key, shared) ++ "
       "non_shared bytes with the value after it, nothing in the reader reads the writer's restart interval, and outside metadata.c and the writer nothing reads the trailer's statistics fields. Behaviour on legal encodings today's writer never produces is exactly what "
-      "only an independent encoder can exercise; it is not decided.",
+      "only an independent encoder can exercise; it is not decided. Re-runs C02, C03 and C16 (C11.D.*): lookups, seeks and integer decoding on independently encoded files go through exactly those paths.",
       "Trusts T-format, additive parsing of pointer expressions (no subtraction), loop bound 1.")
 
 claim("C01",
@@ -175,7 +175,7 @@ claim("C01",
       "block builder exactly once with the caller's key/value after any block cut and a refused add never does; a finished builder is reset before reuse, a cut block goes either to the pool "
       "once or is compressed then written once, finish runs flush < join < index block < one 512-byte trailer; an exhausted block makes next advance the index once, load the block it names "
       "and position at its first entry, failing only at the end of the index; mtbl_dump prints an entry iff not silent and both prefix tests (length and bytes) and both minimum lengths hold. "
-      "That prefix sharing, restart offsets and block cuts compose to the identity for every key sequence and configuration, and the compression libraries, are not decided.",
+      "That prefix sharing, restart offsets and block cuts compose to the identity for every key sequence and configuration, and the compression libraries, are not decided. Also decides (R6) that the quantity block_builder_empty tests is emptied by reset and grows by a provably positive amount on every path of block_builder_add, so no non-empty block is skipped at flush; and re-runs the rules of C20 and C16 (labelled C01.D.*) because the round trip rests on them.",
       "Trusts T-format, the varint codecs (decided separately by C16), loop bound 1, three-valued evaluation of the dump formula over the atoms each path constrains.")
 
 claim("C12",
@@ -184,7 +184,7 @@ claim("C12",
       "the stored CRC (the four bytes in front of the payload) is required equal to mtbl_crc32c over exactly the (pointer,length) later handed to decompression/block_init, with the failing edge "
       "NORETURN; the writer-side CRC scope of C09.R2; mtbl_verify visits every data block, returns false on a mismatch or overrun, prints OK and exits 0 only when everything verified, and opens "
       "the reader with verification on so the index block is covered; asserts are compiled in (no NDEBUG, 60+ live failure edges). Detection strength of CRC-32C is mathematics and the implementation "
-      "is C17.",
+      "is C17. Re-runs C17 (C12.D.*): an intact file verifies only if writer and verifier compute the same standard CRC-32C.",
       "Trusts clang's NORETURN knowledge of __assert_fail, the flags reported by make -n / Makefile.am / config.status, loop bound 1.")
 
 claim("C06",
@@ -193,5 +193,5 @@ claim("C06",
       "allocation size is what is accounted and a spill happens iff entry_bytes + vector bytes >= max_memory after accounting, the batch hand-over resets both; mkstemp in the chunk writer is the "
       "sorter's only file creation, its template starts with the configured directory followed by one file-name component, and the file is unlinked on every path; the whole batch is sorted by key "
       "first, neighbours are folded iff their keys are equal and otherwise written, no entry is freed twice; the final merger gets the sorter's merge function/closure and every chunk reader, after "
-      "the join. That chunking never changes the result and qsort/merge behaviour on values are not decided.",
+      "the join. That chunking never changes the result and qsort/merge behaviour on values are not decided. Also decides (R6) that the buffered-bytes total and the memory limit are 64 bits wide and never narrowed, (R7) that the sorter's merge function is called and forwarded with its own closure; re-runs C02.R3 (C06.D.*).",
       "Trusts T-cmp rows 16-18, mkstemp/unlink semantics, loop bound 1.")
